@@ -410,8 +410,10 @@ impl Prop for C08 {
                 // a state around its threshold - and the precondition fails whatever the step grid)
                 {
                     let dw = 4e-12 + 8.0 * EPS * t.abs();
-                    // (the same time twice is one root seen from both adjacent steps, not two roots)
-                    if te.iter().any(|&t2| t2.to_bits() != t.to_bits() && (t2 - t).abs() <= dw) {
+                    // (the same time twice is one root seen from both adjacent steps, not two roots; 2.5
+                    // windows because each reported time is itself only accurate to one window and the
+                    // sign test below looks one window to either side)
+                    if te.iter().any(|&t2| t2.to_bits() != t.to_bits() && (t2 - t).abs() <= 2.5 * dw) {
                         cov.bump("multi_root_window_direction_clause_skipped");
                         continue;
                     }
@@ -495,6 +497,16 @@ impl Prop for C08 {
                         Dir::Pos => gb <= noise && ga >= -noise,
                         Dir::Neg => gb >= -noise && ga <= noise,
                     };
+                    // (a touching zero: the event sits bitwise on an accepted endpoint at which the
+                    // event function is exactly 0 - the zone in which, as in SciPy, the handler may
+                    // report from either adjacent step although g has the same sign on both sides)
+                    let touch = !ok
+                        && endpoints_known
+                        && (0..s.t.len()).any(|k| s.t[k].to_bits() == t.to_bits() && e.eval(s.t[k], &s.y[k]) == 0.0);
+                    if touch {
+                        cov.bump("touching_zero_at_endpoint_accepted");
+                        continue;
+                    }
                     if !ok {
                         v.push(viol(
                             P,
